@@ -186,13 +186,13 @@ def run(R):
                      "the official schema patterns and enums at start-up)", "only str inputs (the property quantifies over "
                      "strings)"]
     check_hierarchy(R.P)
-    nseeds = R.pick(40, 300)
+    nseeds = R.pick(40, 1200)
     shards = []
     for ver in T.VERSIONS:
         for p, fields in seeds(R.sub_rng("seeds" + ver), ver, nseeds):
-            shards.append((ver, p, fields, R.seed, R.pick(300, 3000)))
+            shards.append((ver, p, fields, R.seed, R.pick(300, 6000)))
     R.pmap("shard_seed", shards)
-    R.pmap("shard_junk", [(i, R.pick(400, 20000), R.seed) for i in range(16)])
+    R.pmap("shard_junk", [(i, R.pick(400, 150000), R.seed) for i in range(16)])
     for ver in T.VERSIONS:
         for c in (T.ACCEPT, T.MALFORMED, T.MANDATORY_MISSING):
             if R.P.strata.get("v%s:%s" % (ver, c), 0) == 0:
